@@ -137,6 +137,12 @@ class RandomUtils():
 
     def remove_reserved_words(self, language):
         reserved_words = get_reserved_words(self.resource_path, language)
+        # Identifiers are used as they are, lower-cased or capitalized (see
+        # gen_identifier): drop every word one of whose forms is reserved.
+        reserved_words = reserved_words | {
+            w for w in self.INITIAL_WORDS
+            if w.lower() in reserved_words or w.capitalize() in reserved_words
+        }
         self.INITIAL_WORDS = self.INITIAL_WORDS - reserved_words
         self.WORDS = self.WORDS - reserved_words
 
